@@ -22,6 +22,21 @@ CLAIMED = {
         "technique": "Coq proof (induction over the write history with a ring/history invariant) + "
                      "model-vs-implementation correspondence evaluated by vm_compute",
     },
+    "C13": {
+        "text": "Theorems (Props/C13.v) over the executable model of SlotChain::add_*/entry/exit and "
+                "EntryBuilder::build: for every set of slots of the three kinds added in any order, every "
+                "ascending arrangement the unstable sort may produce, and every assignment of "
+                "pass/blocked(i)/wait to the check slots, the observable run satisfies the executable "
+                "contract predicate ok_C13 (phases in order, each slot once, ascending order values, blocked iff "
+                "a check blocked with a blocker's type, one pass-or-blocked notification, completion once iff "
+                "admitted). The same predicate is evaluated on the implementation's recorded callbacks.",
+        "design_ref": "DESIGN.md §6 C13, Appendix A.6",
+        "note": "Trusted: Coq kernel + VM; model hand-written, validated against the crate through "
+                "recording slots driven by EntryBuilder (finite sample of chains); exit handlers and panicking "
+                "slots are outside the statement.",
+        "technique": "Coq proof (any sorted permutation, list induction) + Spec predicate evaluated on "
+                     "implementation traces by vm_compute",
+    },
 }
 
 REASON_TODO = "not yet covered by the Coq development in this revision (planned, see DESIGN.md §6); no check is claimed"
